@@ -47,6 +47,13 @@ func raceClass(site string) string {
 	}
 	if m := reRecvType.FindStringSubmatch(f); m != nil {
 		typ := m[1] + "." + m[2]
+		if m[1] == "openid" {
+			// package handler/openid: the only request-shared mutable object its strategies and
+			// handlers touch is the session and its ID-token claims (sess.IDTokenClaims() of the
+			// stored request: GenerateIDToken writes ExpiresAt/AuthTime/..., the explicit handler
+			// writes AccessTokenHash) - one class with the session's own methods
+			return "openid.DefaultSession"
+		}
 		switch typ {
 		case "storage.MemoryStore", "fosite.Config", "fosite.DefaultSession", "openid.DefaultSession":
 			// many method combinations, and deterministic fine-grained streams exist for the first two
